@@ -163,17 +163,27 @@ Definition sum_lo (s : Z) (ch : list prop) : Z := zsum (map (fun c => if 0 <? s 
 Definition sum_hi (s : Z) (ch : list prop) : Z := zsum (map (fun c => if 0 <? s then hi_of c else lo_of c * s) ch).
 Definition b2z (b : bool) : Z := if b then 1 else 0.
 
+Definition dbounds (d : interp) (i : ident) (lo hi : Z) : Z * Z :=
+  match alookup i d with Some b => b | None => (lo, hi) end.
+
+(* (after fix D10) an assumed child is replaced by its bare variable only when its id is in the
+   dictionary AND its bounds are constant; order is kept, then the constructor sorts. *)
+Definition keep_child (d : interp) (c : prop) : prop :=
+  match alookup (id_of c) d with
+  | Some _ => if lo_of c =? hi_of c then var_of c else c
+  | None => c
+  end.
+
 Fixpoint assume (d : interp) (p : prop) : prop :=
   match p with
-  | Var i lo hi => match alookup i d with Some (l, h) => Var i l h | None => p end
+  | Var i lo hi => Var i (fst (dbounds d i lo hi)) (snd (dbounds d i lo hi))
   | Node _ i g lo hi s v ch =>
-      let '(lo', hi') := match alookup i d with Some b => b | None => (lo, hi) end in
-      if lo' =? hi' then Var i lo' hi'
+      let b := dbounds d i lo hi in
+      if fst b =? snd b then Var i (fst b) (snd b)
       else
         let ach := map (assume d) ch in
-        let kept := map (fun c => match alookup (id_of c) d with Some _ => var_of c | None => c end) ach in
         Node m0 i false (b2z (v <=? sum_lo s ach)) (b2z (v <=? sum_hi s ach)) s v
-             (py_sorted id_of (filter (fun c => negb (is_var c)) kept ++ filter is_var kept))
+             (py_sorted id_of (map (keep_child d) ach))
   end.
 
 (* flatten: every node and leaf reachable, deduplicated the way a Python set does
